@@ -499,6 +499,7 @@ var windowPoints = []string{
 	"writer.record", "writer.item", "writer.before-append",
 	"delete.found", "delete.checked", "delete.rewritten", "delete.reader.before-swap", "writer.delete.validated",
 	"reader.consume.index", "reader.consume.messages", "reader.index.loading", "reader.messages.loading", "reader.gc.index-closed",
+	"reader.index.wlock", "reader.messages.wlock",
 }
 
 // placement: call A is held at pause point W; calls B then C run to completion (or block on A's locks) inside the window.
@@ -587,6 +588,104 @@ func placement(id int, seed int64, root string) (*chist, error) {
 	return &chist{ID: id, Kind: "placement", What: what, Keys: true, Times: true, Init: init, Ops: e.ops}, nil
 }
 
+// readerTwoStage: the lazy-load / unload protocol of a closed segment's reader (Reader.tla) through two windows
+// in ONE history: (1) after GC(0) has unloaded everything, read A is held on the slow path of the lazy load of a
+// segment - it has seen "not loaded" and is about to take the write lock, or holds it and is loading - while read B
+// loads the same segment (or has to wait for A), so that A finds it loaded by somebody else when it looks again under
+// the lock; (2) read C on that segment is
+// held with the messages in use while GC(0) runs to completion. A user counter that went wrong in (1) lets the GC of
+// (2) unmap what C is about to read.
+func readerTwoStage(id int, seed int64, root string) (*chist, error) {
+	installPause()
+	rng := rand.New(rand.NewSource(seed*92821 + int64(id)))
+	e, init, err := prepLog(filepath.Join(root, fmt.Sprintf("c8-%d", id)), rng, id)
+	if err != nil {
+		return nil, err
+	}
+	defer os.RemoveAll(e.dir)
+	what := "two-stage reader windows:"
+	if len(init.Live) == 0 {
+		e.cursorScan(9, rng) // (a history without calls cannot be written: the Json module has no null)
+		e.l.Close()
+		return &chist{ID: id, Kind: "reader2", What: what + " empty log", Keys: true, Times: true, Init: init, Ops: e.ops}, nil
+	}
+	target := init.Live[rng.Intn((len(init.Live)+1)/2)] // the older half: closed segments
+	read := func() ccall {
+		switch rng.Intn(4) {
+		case 0:
+			return ccall{Op: "get", Off: target.Off}
+		case 1:
+			return ccall{Op: "getbykey", Key: target.Key}
+		case 2:
+			return ccall{Op: "consumebykey", Key: target.Key, Off: target.Off, Max: 2}
+		}
+		return ccall{Op: "consume", Off: target.Off, Max: 3}
+	}
+	hold := func(p int, point string, a ccall, inside ...ccall) error {
+		h := &winHandler{point: point, arrived: make(chan struct{}, 1), release: make(chan struct{})}
+		doneA := make(chan struct{})
+		go func() {
+			gid := curGoid()
+			pauseProcs.Store(gid, h)
+			defer pauseProcs.Delete(gid)
+			e.call(p, a, rng)
+			close(doneA)
+		}()
+		reached := false
+		select {
+		case <-h.arrived:
+			reached = true
+		case <-doneA:
+		case <-time.After(5 * time.Second):
+		}
+		what += fmt.Sprintf(" A=%s held at %s (reached=%v)", a, point, reached)
+		var pend []chan struct{}
+		if reached {
+			for k, c := range inside {
+				what += fmt.Sprintf("; %s", c)
+				d := make(chan struct{})
+				crng := rand.New(rand.NewSource(seed + int64(id*7+k)))
+				go func(k int, c ccall) { e.call(p+1+k, c, crng); close(d) }(k, c)
+				select {
+				case <-d:
+				case <-time.After(25 * time.Millisecond):
+					what += " [blocked]"
+					pend = append(pend, d)
+				}
+			}
+			h.release <- struct{}{}
+		}
+		for _, d := range append([]chan struct{}{doneA}, pend...) {
+			select {
+			case <-d:
+			case <-time.After(20 * time.Second):
+				return fmt.Errorf("reader2 %d: a call never returned (%s)", id, what)
+			}
+		}
+		return nil
+	}
+	e.call(7, ccall{Op: "gc"}, rng) // everything unloaded
+	here := func() ccall {          // a read that certainly touches the target's segment
+		if rng.Intn(2) == 0 {
+			return ccall{Op: "get", Off: target.Off}
+		}
+		return ccall{Op: "consume", Off: target.Off, Max: 3}
+	}
+	// (1) A has seen "not loaded" and is about to take the write lock (or, every other history, already holds it and is
+	// loading) when B loads the same segment / has to wait for it
+	p1 := []string{"reader.messages.wlock", "reader.messages.loading", "reader.index.wlock"}[id/6%3]
+	if err := hold(0, p1, here(), here(), read()); err != nil {
+		return nil, err
+	}
+	what += " |"
+	if err := hold(3, "reader.consume.messages", ccall{Op: "consume", Off: target.Off, Max: 3}, ccall{Op: "gc"}, read()); err != nil {
+		return nil, err
+	}
+	e.cursorScan(9, rng)
+	e.l.Close()
+	return &chist{ID: id, Kind: "reader2", What: what, Keys: true, Times: true, Init: init, Ops: e.ops}, nil
+}
+
 // cursorScan: Consume from OffsetOldest feeding the returned offset back, every call recorded.
 func (e *cenv) cursorScan(p int, rng *rand.Rand) {
 	off := klevdb.OffsetOldest
@@ -635,6 +734,8 @@ func c08Worker(args []string) int {
 			h, err = tailRun(i, seed, root)
 		} else if i < nfree {
 			h, err = freeRun(i, seed, root)
+		} else if i < nfree+nplace && i%6 == 5 {
+			h, err = readerTwoStage(i, seed, root)
 		} else if i < nfree+nplace {
 			h, err = placement(i, seed, root)
 		} else {
